@@ -11,6 +11,7 @@ import (
 	"net/http"
 	"net/url"
 	"os"
+	"sort"
 	"strings"
 	"time"
 
@@ -108,6 +109,7 @@ func muxerPlaylists(r *rng.R, variant gohlslib.MuxerVariant, withAudio bool) (ou
 	if os.Getenv("VERIF_FORCE_QUERY") != "" {
 		query = os.Getenv("VERIF_FORCE_QUERY")
 	}
+	mediaBases := map[string]bool{} // media playlist paths without query
 	collect := func(tag string) {
 		idxPath := "index.m3u8"
 		if query != "" {
@@ -129,6 +131,11 @@ func muxerPlaylists(r *rng.R, variant gohlslib.MuxerVariant, withAudio bool) (ou
 			}
 			if uri == "" {
 				continue
+			}
+			if i := strings.IndexByte(uri, '?'); i >= 0 {
+				mediaBases[uri[:i]] = true
+			} else {
+				mediaBases[uri] = true
 			}
 			for _, q := range []string{"", "?_HLS_skip=YES"} {
 				if q != "" && variant != gohlslib.MuxerVariantLowLatency {
@@ -172,6 +179,25 @@ func muxerPlaylists(r *rng.R, variant gohlslib.MuxerVariant, withAudio bool) (ou
 		query = q
 		collect(fmt.Sprintf("endq%d", qi))
 	}
+	// every media playlist also DIRECTLY with each raw query (the index escapes what it lists, a
+	// client need not): the query reaches the URI attributes of the media playlist itself
+	var bases []string
+	for b := range mediaBases {
+		bases = append(bases, b)
+	}
+	sort.Strings(bases)
+	for _, b := range bases {
+		for qi, q := range queries[2:] {
+			for _, skip := range []string{"", "&_HLS_skip=YES"} {
+				if skip != "" && variant != gohlslib.MuxerVariantLowLatency {
+					continue
+				}
+				if st, body := muxFetch(m, b+"?"+q+skip); st == 200 {
+					out[fmt.Sprintf("direct%d:%s?%s%s", qi, b, q, skip)] = body
+				}
+			}
+		}
+	}
 	return out, nil
 }
 
@@ -186,7 +212,16 @@ func (h *harness) muxerStream(seed uint64, scenarios int) {
 		if err != nil {
 			h.dist["muxer:"+names[vi]+":error:"+panicClass(err.Error())]++
 		}
-		for name, b := range pls {
+		var plNames []string
+		for name := range pls {
+			plNames = append(plNames, name)
+		}
+		sort.Strings(plNames)
+		for i, name := range plNames {
+			b := pls[name]
+			if i%2 == 0 {
+				h.malformedR(r, b, 1) // token-level mutation of a served playlist (grammar comparison)
+			}
 			in := textInput("muxer", b, names[vi]+" "+name)
 			h.dist["muxer:"+names[vi]+":playlists"]++
 			h.decodeAll("muxer", b, in, "", true, "")
